@@ -207,7 +207,148 @@ func (c *Ctx) indexDischarge(fn *ssa.Function, at ssa.Instruction, x, idx ssa.Va
 	if c.rangeLoopIndex(idx, x, atoms) {
 		return "range-loop counter tested < len in the loop header", true
 	}
+	if by, ok := c.linearBound(idx, x, atoms, at.Block(), 0); ok {
+		return by, true
+	}
 	return "", false
+}
+
+// linear: v = base + off (constant offsets folded).
+func (c *Ctx) linear(v ssa.Value) (ssa.Value, int64) {
+	off := int64(0)
+	for i := 0; i < 10; i++ {
+		bo, ok := v.(*ssa.BinOp)
+		if !ok {
+			break
+		}
+		n, isC := constIntVal(bo.Y)
+		if !isC {
+			break
+		}
+		switch bo.Op {
+		case token.ADD:
+			off += n
+			v = bo.X
+			continue
+		case token.SUB:
+			off -= n
+			v = bo.X
+			continue
+		}
+		break
+	}
+	return v, off
+}
+
+// nonNegative: v ≥ 0 by construction (constants, lengths, counters that start ≥ 0 and only grow) or by a fact.
+func (c *Ctx) nonNegative(v ssa.Value, atoms []Atom, seen map[ssa.Value]bool) bool {
+	if seen[v] {
+		return true
+	}
+	seen[v] = true
+	if n, ok := constIntVal(v); ok {
+		return n >= 0
+	}
+	k := c.key(v, nil)
+	for _, a := range atoms {
+		if a.Kind == "cmp" && a.Subj == k && (a.Op == ">=" && a.Val == "0" || a.Op == ">" && (a.Val == "0" || a.Val == "-1")) {
+			return true
+		}
+	}
+	switch x := v.(type) {
+	case *ssa.Phi:
+		for _, e := range x.Edges {
+			if !c.nonNegative(e, atoms, seen) {
+				return false
+			}
+		}
+		return true
+	case *ssa.BinOp:
+		if x.Op == token.ADD {
+			return c.nonNegative(x.X, atoms, seen) && c.nonNegative(x.Y, atoms, seen)
+		}
+	case *ssa.Call:
+		if bi, ok := x.Call.Value.(*ssa.Builtin); ok && (bi.Name() == "len" || bi.Name() == "cap") {
+			return true
+		}
+	}
+	return false
+}
+
+// linearBound: idx = base + off with a fact base < len(x) - d (or base <= len(x) - d - 1), off ≤ d, idx ≥ 0.
+// For a phi index every incoming value must satisfy this with the facts of its own edge.
+func (c *Ctx) linearBound(idx, x ssa.Value, atoms []Atom, blk *ssa.BasicBlock, depth int) (string, bool) {
+	if depth > 4 {
+		return "", false
+	}
+	lenK := "len(" + c.key(x, nil) + ")"
+	base, off := c.linear(idx)
+	bk := c.key(base, nil)
+	best := int64(-1 << 40)
+	found := false
+	for _, a := range atoms {
+		if a.Kind != "cmp" || a.Subj != bk {
+			continue
+		}
+		d, ok := int64(0), false
+		switch {
+		case a.Val == lenK:
+			d, ok = 0, true
+		case strings.HasPrefix(a.Val, "("+lenK+" - ") && strings.HasSuffix(a.Val, ")"):
+			var n int64
+			if _, err := fmt.Sscan(strings.TrimSuffix(strings.TrimPrefix(a.Val, "("+lenK+" - "), ")"), &n); err == nil {
+				d, ok = n, true
+			}
+		}
+		if !ok {
+			continue
+		}
+		switch a.Op {
+		case "<":
+		case "<=":
+			d--
+		default:
+			continue
+		}
+		found = true
+		if d > best {
+			best = d
+		}
+	}
+	if found && off <= best && c.nonNegative(idx, atoms, map[ssa.Value]bool{}) {
+		return fmt.Sprintf("explicit bound: %s < %s - %d and offset %d, index ≥ 0", bk, lenK, best, off), true
+	}
+	// phi: every incoming value is bounded on its own edge
+	if ph, ok := idx.(*ssa.Phi); ok {
+		for i, e := range ph.Edges {
+			if e == idx {
+				continue
+			}
+			pred := ph.Block().Preds[i]
+			ea := c.edgeAtomsExpanded(pred, ph.Block())
+			if _, ok := c.linearBound(e, x, ea, pred, depth+1); !ok {
+				return "", false
+			}
+		}
+		return "explicit bound on every incoming edge of the index", true
+	}
+	return "", false
+}
+
+// edgeAtomsExpanded: facts that hold when control goes from pred to succ.
+func (c *Ctx) edgeAtomsExpanded(pred, succ *ssa.BasicBlock) []Atom {
+	var out []Atom
+	for _, f := range c.domFacts(pred) {
+		out = append(out, c.expand(c.atoms(f.Cond, f.Pol, nil), nil)...)
+	}
+	if iff, ok := pred.Instrs[len(pred.Instrs)-1].(*ssa.If); ok && pred.Succs[0] != pred.Succs[1] {
+		if pred.Succs[0] == succ {
+			out = append(out, c.expand(c.atoms(iff.Cond, true, nil), nil)...)
+		} else if pred.Succs[1] == succ {
+			out = append(out, c.expand(c.atoms(iff.Cond, false, nil), nil)...)
+		}
+	}
+	return out
 }
 
 func (c *Ctx) sliceDischarge(x ssa.Value, low, high ssa.Value, atoms []Atom) (string, bool) {
